@@ -47,6 +47,23 @@ def run(ctx):
     e8(ctx, fx, U)
 
 
+def _direct_item(key, loop_node):
+    """the digest operand is the loop item itself (through string conversion / `?` wrappers only)"""
+    x = peel(key)
+    g = 0
+    while g < 12:
+        if x is loop_node:
+            return True
+        if x.kind in ("variant", "field") and x.kids:
+            x = peel(x.kids[0])
+        elif x.kind == "call" and x.d["term"].get("name") in ("as_str", "branch", "ok_or", "ok_or_else", "map_err", "unwrap", "expect", "to_string", "to_owned", "as_ref", "deref", "clone") and x.kids:
+            x = peel(x.kids[0])
+        else:
+            return False
+        g += 1
+    return False
+
+
 def e8(ctx, fx, U):
     """E8 (reject, not skip): the guards of E1-E3 say that an ill-formed structure never reaches a sink; the specification asks for more --
     the presentation is *rejected*. (i) Once a digest matched a disclosure, every path to the next iteration / an Ok exit passes the
@@ -83,6 +100,64 @@ def e8(ctx, fx, U):
         else:
             ctx.ok("C08.E8", fn, "duplicate-rejected", "the 'seen before' edge of the duplicate-digest test leads only to Err exits", line=fn.term(seen_edges[0][0]).get("line"))
     ctx.floor("C08.E8", "duplicate-digest tests", ndup, 2)
+    # (iii) every digest meets the duplicate test, whether or not disclosures were presented: in a function that looks digests up, no
+    # non-Err exit (and, inside the digest loop, no next iteration) is reachable around the test -- a 'nothing was disclosed, so
+    # these are all decoys' fast path in front of it skips the duplicate and digest-type checks of E1 / E5 exactly when they are the
+    # only thing standing between an ill-formed payload and acceptance
+    nall = 0
+    for fname in sorted(set(f.name for (f, b, n) in U.lookups)):
+        fn = [f for (f, b, n) in U.lookups if f.name == fname][0]
+        tests = set()
+        for (f, b, n) in U.lookups:
+            if f.name != fname:
+                continue
+            key = n.kids[1]
+            for (bb, tt, ft, c) in bool_switches(fn):
+                if c.kind != "call" or len(c.kids) != 2:
+                    continue
+                mb = common.membership(c)
+                if mb is not None:
+                    if peel(mb[0]).kind == "field" and c07.same_key(mb[1], key):
+                        tests.add(bb)
+                elif _seen_field(c) is not None and c07.same_key(c.kids[1], key) and c.d["term"].get("name") == "insert":
+                    tests.add(bb)
+        if not tests:
+            continue
+        nall += 1
+        tests = sorted(tests)
+        loops = [lp for lp in common.next_loops(fn) if any(tb in cfg.reachable(fn, list(lp.body_entries), removed_blocks=[lp.bb]) for tb in tests)]
+        okexit = lambda e: e["kind"] not in ("Err", "residual")
+        bad = None
+        if loops:
+            heads = [lp.bb for lp in loops]
+            r0 = cfg.reachable(fn, [0], removed_blocks=heads + tests)
+            if any(okexit(e) and e["bb"] in r0 for e in cfg.exit_sites(fn)):
+                bad = "the function can return without an Err before its digest loop is entered"
+            for lp in loops:
+                # the loop runs over the digests themselves (`for digest in digests`): every iteration has a digest. A loop over array
+                # elements, of which only the placeholders carry a digest, is judged from where the digest operand is obtained.
+                keys = [n.kids[1] for (f, b, n) in U.lookups if f.name == fname]
+                starts = list(lp.body_entries)
+                if not any(_direct_item(k, lp.node) for k in keys):
+                    starts = []
+                    for k in keys:
+                        for x in walk(k):
+                            if x.kind == "call" and x.d["term"].get("name") in ("get", "index") and len(x.kids) > 1 and const_value(x.kids[1]) == "..." and x.fn is fn:
+                                starts.extend(t_ for (_, t_) in success_edges(fn, x)[0])
+                    if not starts:
+                        continue
+                r1 = cfg.reachable(fn, starts, removed_blocks=tests)
+                if lp.bb in r1 or any(okexit(e) and e["bb"] in r1 for e in cfg.exit_sites(fn)):
+                    bad = bad or "an iteration of the digest loop can end (next iteration / Ok) without the duplicate test"
+        else:
+            r0 = cfg.reachable(fn, [0], removed_blocks=tests)
+            if any(okexit(e) and e["bb"] in r0 for e in cfg.exit_sites(fn)):
+                bad = "the function can return without an Err around the duplicate test"
+        if bad:
+            ctx.finding("C08.E8", fn, "digest-always-checked", "%s: a digest can escape the duplicate-digest (and digest-type) checks, e.g. when no disclosures were presented" % bad, line=fn.term(tests[0]).get("line"))
+        else:
+            ctx.ok("C08.E8", fn, "digest-always-checked", "every digest meets the duplicate test: no non-Err exit and no next iteration is reachable around it", line=fn.term(tests[0]).get("line"))
+    ctx.floor("C08.E8", "digest-processing functions", nall, 2)
 
 
 class ProxyCtx:
